@@ -408,11 +408,19 @@ theorem params_bound_with_type (typ : T) (ps : List Ast.Param) (c c' : Ctx)
       obtain ⟨h3, q, hq, h4⟩ := hall s hs
       exact ⟨h3, q, List.mem_cons_of_mem _ hq, h4⟩
 
+/-- number of written parameters (0 when the list is absent) -/
+def paramCount : Option Ast.ParamList → Nat
+  | some l => l.params.length
+  | none => 0
+
+/-- length of an optional list (0 when absent): the `num_params` of the Gate and Def arms -/
+def optLen {α : Type} : Option (List α) → Nat
+  | some l => l.length
+  | none => 0
+
 theorem bindParameterList_length (pl : Option Ast.ParamList) (typ : T) (c c' : Ctx)
     (r : Option (List SymbolIdResult)) (h : (bindParameterList pl typ).run c = .ok (r, c')) :
-    (match r with | some l => l.length | none => 0) =
-      (match pl with | some l => l.params.length | none => 0) ∧
-    (r.isSome = pl.isSome) := by
+    optLen r = paramCount pl ∧ (r.isSome = pl.isSome) := by
   cases pl with
   | none =>
     simp only [StateT.run, bindParameterList, M.pure_ok, Prod.mk.injEq] at h
@@ -420,7 +428,8 @@ theorem bindParameterList_length (pl : Option Ast.ParamList) (typ : T) (c c' : C
     exact ⟨rfl, rfl⟩
   | some l =>
     simp only [StateT.run, bindParameterList, M.bind_ok, M.pure_ok, Prod.mk.injEq] at h
-    obtain ⟨rs, cA, h1, rfl, rfl⟩ := h
+    obtain ⟨rs, cA, h1, hr, hc⟩ := h
+    subst hr
     exact ⟨(params_bound_with_type typ l.params c cA rs h1).1, rfl⟩
 
 /-- one step of `bind_typed_parameter_list` -/
@@ -488,15 +497,15 @@ theorem gate_arity_recorded (fuel : Nat) (span : Ast.Span) (name : Ast.Name)
     (c c' : Ctx) (stmt : Option Stmt)
     (h : (stmtToAsgStmt (fuel + 1)
       (.gate span (some name) angleParams (some qubitParams) (some body))).run c = .ok (stmt, c')) :
-    ∃ sym params qubits block cBody cExit,
+    ∃ sym params qubits block cIn cMid cQ cBody cExit,
       stmt = some (.gateDefinition sym params qubits block) ∧
+      -- the parameters are bound inside the gate's scope: angles as `angle const`, qubits as `Qubit`
+      (bindParameterList angleParams (.angle none true)).run cIn = .ok (params, cMid) ∧
+      (bindParameterList (some qubitParams) .qubit).run cMid = .ok (some qubits, cQ) ∧
       (exitScope).run cBody = .ok ((), cExit) ∧
-      (newBinding name.text
-        (.gate (match angleParams with | some l => l.params.length | none => 0)
-          qubitParams.params.length) name.span).run cExit = .ok (sym, c') ∧
-      qubits.length = qubitParams.params.length ∧
-      (match params with | some l => l.length | none => 0) =
-        (match angleParams with | some l => l.params.length | none => 0) := by
+      (newBinding name.text (.gate (paramCount angleParams) qubitParams.params.length)
+        name.span).run cExit = .ok (sym, c') ∧
+      qubits.length = qubitParams.params.length ∧ optLen params = paramCount angleParams := by
   simp only [StateT.run, stmtToAsgStmt, withScope, M.bind_ok, unwrap, M.pure_ok, Prod.mk.injEq,
     exists2_eq] at h
   obtain ⟨u1, c1, -, r, c2, ⟨u2, c3, -, r2, c4, ⟨params, c5, h5, qs, c6, h6, qubits, c7, h7, block,
@@ -508,11 +517,21 @@ theorem gate_arity_recorded (fuel : Nat) (span : Ast.Span) (name : Ast.Name)
   | some qs' =>
     simp only [M.pure_ok, Prod.mk.injEq] at h7
     obtain ⟨e1, e2⟩ := h7
-    rw [e1] at h10 ⊢
-    simp only at hq1 h10
-    refine ⟨sym, params, qs', block, c4, c2, rfl, h9, ?_, hq1, hp1⟩
-    rw [← hq1, ← hp1]
-    exact h10
+    simp only [optLen, paramCount] at hq1
+    have hq : qubits.length = qubitParams.params.length := by rw [e1]; exact hq1
+    refine ⟨sym, params, qubits, block, c3, c5, c6, c4, c2, rfl, h5, by rw [e1]; exact h6, h9, ?_,
+      hq, hp1⟩
+    rw [← hp1, ← hq]
+    cases params <;> exact h10
+
+/-- the return type of a `def`: the written scalar type evaluated as a CONST type, or `Void` -/
+def ReturnTypeOf (rs : Option Ast.ReturnSignature) (c : Ctx) (ret : T) (c' : Ctx) : Prop :=
+  match rs with
+  | some r =>
+    match r.scalarType with
+    | some st => (scalarTypeToType st true).run c = .ok (ret, c')
+    | none => ret = .void ∧ c' = c
+  | none => ret = .void ∧ c' = c
 
 /-- **C09, subroutine signature.**  The `Def` arm binds the name AFTER the body with
 `SubroutineDef(n, ret)` where `n` = number of written parameters and `ret` = the written return
@@ -522,14 +541,11 @@ theorem def_signature_recorded (fuel : Nat) (span : Ast.Span) (name : Ast.Name)
     (c c' : Ctx) (stmt : Option Stmt)
     (h : (stmtToAsgStmt (fuel + 1)
       (.defStmt span (some name) (some tpl) (some body) rs)).run c = .ok (stmt, c')) :
-    ∃ sym params block ret cExit cRet,
+    ∃ sym params block ret cIn cP cExit cRet,
       stmt = some (.defStmt sym params block ret) ∧
+      (bindTypedParams tpl.typedParams).run cIn = .ok (params, cP) ∧
       params.length = tpl.typedParams.length ∧
-      (match rs with
-        | some r => match r.scalarType with
-          | some st => (scalarTypeToType st true).run cExit = .ok (ret, cRet)
-          | none => ret = .void ∧ cRet = cExit
-        | none => ret = .void ∧ cRet = cExit) ∧
+      ReturnTypeOf rs cExit ret cRet ∧
       (newBinding name.text (.subroutine tpl.typedParams.length ret) name.span).run cRet =
         .ok (sym, c') := by
   simp only [StateT.run, stmtToAsgStmt, withScope, M.bind_ok, unwrap, M.pure_ok, Prod.mk.injEq,
@@ -555,21 +571,22 @@ theorem def_signature_recorded (fuel : Nat) (span : Ast.Span) (name : Ast.Name)
   | none =>
     simp only [M.pure_bind_ok] at htail
     obtain ⟨sym, hs, hn⟩ := tail _ _ htail
-    exact ⟨sym, l, block, .void, c2, c2, hs, hlen, by simp, hn⟩
+    exact ⟨sym, l, block, .void, c3, _, c2, c2, hs, h5a, hlen,
+      by unfold ReturnTypeOf; exact ⟨rfl, rfl⟩, hn⟩
   | some rsig =>
     cases hst : rsig.scalarType with
     | none =>
       simp only [hst, M.pure_bind_ok] at htail
       obtain ⟨sym, hs, hn⟩ := tail _ _ htail
-      refine ⟨sym, l, block, .void, c2, c2, hs, hlen, ?_, hn⟩
-      simp [hst]
+      refine ⟨sym, l, block, .void, c3, _, c2, c2, hs, h5a, hlen, ?_, hn⟩
+      simp [ReturnTypeOf, hst]
     | some st =>
       simp only [hst] at htail
       rw [M.bind_ok] at htail
       obtain ⟨ret, cR, hr, htail⟩ := htail
       obtain ⟨sym, hs, hn⟩ := tail _ _ htail
-      refine ⟨sym, l, block, ret, c2, cR, hs, hlen, ?_, hn⟩
-      simp only [hst]; exact hr
+      refine ⟨sym, l, block, ret, c3, _, c2, cR, hs, h5a, hlen, ?_, hn⟩
+      simp only [ReturnTypeOf, hst]; exact hr
 
 /-! ### the gate listing -/
 
@@ -716,6 +733,18 @@ theorem witness_def :
 
 /-- `include "stdgates.inc";`: the listing is the standard table -/
 theorem witness_stdgates_included :
-    observe progStd = .ok [] stdGates [] := by decide +kernel
+    (match observe progStd with
+      | .ok syms gates errs => some (syms.map (·.1), gates, errs)
+      | _ => none) = some (stdGates.map (·.1), stdGates, []) := by decide +kernel
+
+/-- `if (true) { gate U q {} }` -/
+def progGateU : Ast.Program :=
+  ⟨⟨0, 25⟩, [(.ifStmt ⟨0, 25⟩ (some (.literal ⟨⟨4, 8⟩, .bool true⟩)) (.ok (.blockExpr (.mk ⟨10, 25⟩ [(.gate ⟨12, 23⟩ (some ⟨⟨17, 18⟩, "U"⟩) none (some ⟨⟨19, 20⟩, [⟨⟨19, 20⟩, "q"⟩]⟩) (some (.mk ⟨21, 23⟩ [])))]))) none)]⟩
+
+/-- `gates()` filters by the NAME `U`: a user gate named `U` (bound in a nested scope, where the
+name is free) is a symbol of gate type but is missing from the listing -/
+theorem witness_user_gate_named_U_unlisted :
+    observe progGateU = .ok [("q", .qubit), ("U", .gate 0 1)] [] [⟨.notInGlobalScopeError, 17, 18⟩] := by
+  decide +kernel
 
 end Oq3.Props.C09
